@@ -65,7 +65,7 @@ def attrib_reads(fn, var_pred=None):
             v = src(n.value)
             if v == 'attrib' or v.endswith('.attrib') or v == 'token_attribs':
                 out.add((v, n.slice.value))
-        if isinstance(n, ast.Call) and isinstance(n.func, ast.Attribute) and n.func.attr == 'get' and n.args and isinstance(n.args[0], ast.Constant):
+        if isinstance(n, ast.Call) and isinstance(n.func, ast.Attribute) and n.func.attr in ('get', 'pop') and n.args and isinstance(n.args[0], ast.Constant):
             out.add((src(n.func.value), n.args[0].value))
         if isinstance(n, ast.Compare) and len(n.ops) == 1 and isinstance(n.ops[0], (ast.In, ast.NotIn)) and isinstance(n.left, ast.Constant) \
                 and (src(n.comparators[0]) == 'attrib' or src(n.comparators[0]).endswith('.attrib')):
@@ -93,7 +93,14 @@ def r_candc(repo, rep, R='R15.1'):
     star_leaf = any(k.startswith('*') for k in by_tag.get('lf', ()))
     rec = rm.get('read_xml.parse.rec')
     reads = {k for v, k in attrib_reads(rec)}
-    leaf_keys = {kw.arg for n in ast.walk(rec) if isinstance(n, ast.Call) and src(n.func) == 'Token' for kw in n.keywords}
+    # Token(...) constructions of the reader, as the walker evaluates them (keys from a table, ** of a display, ...)
+    token_calls = []
+    for st_, o_ in SymExec(rec, unroll=1).run():
+        for c_ in all_calls(st_, N('Token')):
+            if c_ not in token_calls:
+                token_calls.append(c_)
+    leaf_keys = {k for c_ in token_calls for k, _ in c_[3] if k is not None}
+    reads |= {v[2][1] for c_ in token_calls for _, v in c_[3] if v[0] == 'sub' and v[2][0] == 'const' and show(v[1]).endswith('attrib')}
     rep.check('cat' in by_tag.get('rule', ()) and 'cat' in by_tag.get('lf', ()) and 'cat' in reads, R, w, 'candc:cat',
               'the category attribute `cat` is written on rule and lf elements and read from both', 'cat attribute written on %s' % {t: sorted(a) for t, a in by_tag.items()})
     tm = repo.module('depccg/types.py')
@@ -121,11 +128,12 @@ def r_candc(repo, rep, R='R15.1'):
                     rewritten.append('%s=%s' % (k[1], show(v)[:50]))
     rep.check(not rewritten, R, w, 'candc:token-verbatim:write', 'token fields are written exactly as stored in the token', 'token fields are rewritten on output: %s' % sorted(set(rewritten)))
     transformed = []
-    for n in ast.walk(rec):
-        if isinstance(n, ast.Call) and src(n.func) == 'Token':
-            for kw_ in n.keywords:
-                if not (isinstance(kw_.value, ast.Subscript) and src(kw_.value.value) == 'attrib' and isinstance(kw_.value.slice, ast.Constant) and kw_.value.slice.value == kw_.arg):
-                    transformed.append('%s=%s' % (kw_.arg, src(kw_.value)[:50]))
+    for c_ in token_calls:
+        if c_[2]:
+            transformed.append('positional %s' % [show(a)[:30] for a in c_[2]])
+        for k_, v_ in c_[3]:
+            if not (k_ is not None and v_[0] == 'sub' and v_[2] == C(k_) and show(v_[1]).endswith('attrib')):
+                transformed.append('%s=%s' % (k_, show(v_)[:50]))
     rep.check(not transformed, R, '%s:%s read_xml' % (RD, rx.lineno), 'candc:token-verbatim:read', 'token fields are read back exactly as written (field k from attribute k)',
               'token fields are transformed while reading: %s' % transformed)
     xo = pm.get('xml_of')
@@ -285,13 +293,24 @@ def r_ids(repo, rep, R='R15.3'):
         if x[0] == 'attr' and x[1] == N('self') and cls is not None:
             prop = [s_ for s_ in cls.body if isinstance(s_, ast.FunctionDef) and s_.name == x[2] and any('property' in src(d) for d in s_.decorator_list)]
             return bool(prop)
+        if x[0] == 'call' and x[1][0] == 'attr' and x[1][1] == N('self') and not x[2] and not x[3] and x[1][2] in id_methods:
+            return True
         return x[0] == 'call' and x[1] == N('next') and len(x[2]) == 1
 
+    # methods that hand out the next id: advance a field of the converter by one and return a value built from it
+    id_methods = set()
+    for s_ in (cls.body if cls is not None else []):
+        if isinstance(s_, ast.FunctionDef) and not s_.decorator_list and len(s_.args.args) == 1:
+            augs_ = [n_ for n_ in ast.walk(s_) if isinstance(n_, ast.AugAssign) and isinstance(n_.op, ast.Add) and isinstance(n_.target, ast.Attribute)
+                     and isinstance(n_.target.value, ast.Name) and n_.target.value.id == 'self' and isinstance(n_.value, ast.Constant) and n_.value.value == 1]
+            rets_ = [n_ for n_ in ast.walk(s_) if isinstance(n_, ast.Return) and n_.value is not None]
+            if len(augs_) == 1 and len(rets_) == 1 and any(isinstance(n_, ast.Attribute) and n_.attr == augs_[0].target.attr for n_ in ast.walk(rets_[0].value)):
+                id_methods.add(s_.name)
     props = tuple(s_.name for s_ in (cls.body if cls is not None else []) if isinstance(s_, ast.FunctionDef) and any('property' in src(d) for d in s_.decorator_list))
     kinds = {}
     id_counter = None
     rec_fields = None
-    paths = SymExec(trav, on_call=on_call, init_env={trav.name: ('func', trav.name, id(trav))}, watch_attrs=props).run()
+    paths = SymExec(trav, on_call=on_call, init_env={trav.name: ('func', trav.name, id(trav))}, watch_attrs=props, no_inline=tuple(id_methods)).run()
     for st, o in paths:
         if o != 'return':
             continue
@@ -301,7 +320,7 @@ def r_ids(repo, rep, R='R15.3'):
             if e[0] == 'call' and e[1][1][0] == 'attr' and e[1][1][2] == 'set' and len(e[1][2]) == 2 and e[1][2][0][0] == 'const':
                 sets[e[1][2][0][1]] = e[1][2][1]
         idt = sets.get('id')
-        fresh_in_id = [x for x in (idt[1] if idt is not None and idt[0] == 'fstr' else ()) if isinstance(x, tuple) and is_fresh(x)]
+        fresh_in_id = [x for x in (idt[1] if idt is not None and idt[0] == 'fstr' else ((idt,) if idt is not None else ())) if isinstance(x, tuple) and is_fresh(x)]
         comp = components(st.ret)
         if comp is None:
             kinds['?'] = (False, False, False, show(st.ret)[:40] if st.ret else None)
@@ -422,6 +441,8 @@ def r_ids(repo, rep, R='R15.3'):
     tj = jm.get('to_jigg_xml')
     okc = False
     cdetail = 'span ids are not drawn from a counter'
+    if id_counter is not None and id_counter[0] == 'call' and id_counter[1][0] == 'attr' and id_counter[1][1] == N('self') and not id_counter[2]:
+        id_counter = id_counter[1]          # an id-issuing method of the converter: judged like the property form
     if id_counter is not None:
         src_t = id_counter if id_counter[0] == 'attr' else id_counter[2][0]
         if src_t[0] == 'attr' and src_t[1] == N('self') and cls is not None:
@@ -432,7 +453,7 @@ def r_ids(repo, rep, R='R15.3'):
                 backing = None
                 for st, o in SymExec(sp).run():
                     augs = [e for e in st.events if e[0] == 'aug' and e[1][0] == 'attr' and e[1][1] == N('self') and e[2] == '+' and e[3] == C(1)]
-                    okp = okp and len(augs) == 1 and st.ret == augs[0][1]
+                    okp = okp and len(augs) == 1 and st.ret is not None and (st.ret == augs[0][1] or any(x == augs[0][1] for x in subterms(st.ret)))
                     backing = augs[0][1][2] if augs else None
             else:
                 okp, backing = True, src_t[2]
